@@ -58,13 +58,38 @@ pub fn check_picture_names(pic: &str) -> Result<bool, String> {
     Ok(true)
 }
 
+fn wrapper_probe(kind: Kind) -> ad::LibVal {
+    match kind {
+        Kind::Date => ad::LibVal::Date(ad::date(12_151)),
+        Kind::Time => ad::LibVal::Time(ad::time(62_936_123_456)),
+        Kind::Ts => ad::LibVal::Ts(ad::ts(1_049_909_336_123_456)),
+        Kind::Ora => ad::LibVal::Ora(ad::ora(1_049_909_336_000_000)),
+        Kind::YM => ad::LibVal::YM(ad::ym(-14)),
+        Kind::DT => ad::LibVal::DT(ad::dt(-93_784_000_005)),
+    }
+}
+
 /// Returns whether the reference accepts the picture.
 pub fn check_picture(pic: &str) -> Result<bool, String> {
     let want = tokenize(pic);
     let got = guarded(|| Formatter::try_new(pic).map(|_| ())).map_err(|p| format!("Formatter::try_new({pic:?}): {p}"))?;
     match (&want, &got) {
         (None, Ok(())) => return Err(format!("picture {pic:?} compiles although it is not a sequence of (at most 36) documented tokens")),
-        (None, Err(Error::InvalidFormat(_))) => return Ok(false),
+        (None, Err(Error::InvalidFormat(_))) => {
+            // the one-shot wrappers of all six types must reject it as a format error too
+            for kind in KINDS {
+                match ad::parse_type(kind, "1", pic).map_err(|p| format!("{}::parse(\"1\", {pic:?}): {p}", kind.name()))? {
+                    Err(Error::InvalidFormat(_)) => {}
+                    other => return Err(format!("picture {pic:?} is not a sequence of (at most 36) documented tokens and Formatter::try_new rejects it, but {}::parse answers {other:?} instead of a format error", kind.name()).chars().take(900).collect()),
+                }
+                let v = wrapper_probe(kind);
+                match ad::format_lazy(&v, pic).map_err(|p| format!("{}::format({pic:?}): {p}", kind.name()))? {
+                    FmtOut::BadPicture(Error::InvalidFormat(_)) => {}
+                    other => return Err(format!("picture {pic:?} is not a sequence of (at most 36) documented tokens and Formatter::try_new rejects it, but {}::format answers {other:?} instead of a format error", kind.name()).chars().take(900).collect()),
+                }
+            }
+            return Ok(false);
+        }
         (None, Err(e)) => return Err(format!("picture {pic:?} is rejected with {e:?}, expected Error::InvalidFormat")),
         (Some(t), Err(e)) => return Err(format!("picture {pic:?} is rejected ({e:?}) although it splits into the documented tokens {t:?}")),
         (Some(_), Ok(())) => {}
@@ -383,7 +408,7 @@ pub fn run(ctx: &Ctx) -> (Stats, Report) {
     st.section("random_token_sequences", &mut mark);
 
     let rep = Report {
-        rule: format!("E1: every string of length 0..={maxlen} over the {}-symbol picture alphabet (exhaustive); near-miss spellings alone and embedded; blank runs of every length 1..=700 (alone, between number tokens, and next to name tokens for every month / weekday name); 30..=42 repetitions of every documented token spelling (and of token + separator pairs) around the 36-token limit. E2: proptest token sequences of 0..=40 tokens (34..=38 over-sampled) with random letter case, blank runs up to 600 and an optional near-miss spelling spliced in. Every rendering goes through both Formatter::format and T::format + write!, and the one-shot Timestamp::parse wrapper must not reject an accepted picture as a format error. Oracle: reference longest-match tokenizer: try_new is Ok iff it accepts (<= 36 tokens), rejection must be Error::InvalidFormat; for accepted pictures the text formatted for the probe 2003-04-09 17:28:56.123456 (every field distinct) must equal the reference rendering of the reference token list (identifies token identity, name case and exact blank-run length); every letter-case pattern of MONTH / MON / DAY / DY / AM / PM / A.M. / P.M. (alone, doubled, embedded) is formatted for 19 probes covering every month name, every weekday name and both meridians. Run under both build profiles. Non-trivial = accepted by the reference, or rejected but one end-deletion away from an accepted picture, or containing a near-miss spelling.", ALPHABET.len()),
+        rule: format!("E1: every string of length 0..={maxlen} over the {}-symbol picture alphabet (exhaustive); near-miss spellings alone and embedded; blank runs of every length 1..=700 (alone, between number tokens, and next to name tokens for every month / weekday name); 30..=42 repetitions of every documented token spelling (and of token + separator pairs) around the 36-token limit. E2: proptest token sequences of 0..=40 tokens (34..=38 over-sampled) with random letter case, blank runs up to 600 and an optional near-miss spelling spliced in. Every rendering goes through both Formatter::format and T::format + write!, and the one-shot Timestamp::parse wrapper must not reject an accepted picture as a format error. Oracle: reference longest-match tokenizer: try_new is Ok iff it accepts (<= 36 tokens), rejection must be Error::InvalidFormat, from Formatter::try_new and from the one-shot parse / format wrappers of all six types; for accepted pictures the text formatted for the probe 2003-04-09 17:28:56.123456 (every field distinct) must equal the reference rendering of the reference token list (identifies token identity, name case and exact blank-run length); every letter-case pattern of MONTH / MON / DAY / DY / AM / PM / A.M. / P.M. (alone, doubled, embedded) is formatted for 19 probes covering every month name, every weekday name and both meridians. Run under both build profiles. Non-trivial = accepted by the reference, or rejected but one end-deletion away from an accepted picture, or containing a near-miss spelling.", ALPHABET.len()),
         assumptions: vec!["a name token with lower-case first and upper-case second letter, and a mixed-case meridian token, have no style fixed by the statement: compared ignoring case".into()],
         exhaustive: false,
         extra: Default::default(),
